@@ -48,6 +48,8 @@ def _keys(prop: str, root: str, use_cache: bool) -> Tuple[set, Optional[str]]:
 def _one(args) -> Dict[str, Any]:
     prop, root, variant, base_keys = args
     name, relpath, old, new, expect = variant
+    if relpath == "@patch":
+        return _one_patch(prop, root, name, old, expect, base_keys)
     src_path = os.path.join(root, relpath)
     try:
         with open(src_path) as f:
@@ -92,6 +94,32 @@ def _one(args) -> Dict[str, Any]:
         return {"name": name, "status": "fired", "rule": expect, "key": hit[0][1][:140]}
     return {"name": name, "status": "failed",
             "why": f"mutant not detected by {expect} (new violations: {sorted(r for r, _ in new_keys)})"}
+
+
+def _one_patch(prop, root, name, patch_rel, expect, base_keys) -> Dict[str, Any]:
+    """Variant given as a unified diff (a seeded change kept under /verif/seeded)."""
+    import subprocess
+    from .core import VERIF
+    patch = os.path.join(VERIF, patch_rel)
+    tmp = tempfile.mkdtemp(prefix="basana-sa-variant-")
+    try:
+        shutil.copytree(os.path.join(root, "basana"), os.path.join(tmp, "basana"),
+                        ignore=shutil.ignore_patterns("__pycache__"))
+        p = subprocess.run(["git", "apply", "--include=basana/*", patch], cwd=tmp, stdout=subprocess.PIPE,
+                           stderr=subprocess.STDOUT, text=True)
+        if p.returncode != 0:
+            return {"name": name, "status": "inapplicable", "why": "patch does not apply: " + p.stdout.strip()[-120:]}
+        keys, err = _keys(prop, tmp, use_cache=False)
+    finally:
+        shutil.rmtree(tmp, ignore_errors=True)
+    if err:
+        return {"name": name, "status": "failed", "why": f"seeded change made the analysis fail instead of firing: {err}"}
+    new_keys = keys - base_keys
+    hit = [k for k in new_keys if k[0] == expect or k[0].startswith(expect + ".")]
+    if hit:
+        return {"name": name, "status": "fired", "rule": expect, "key": hit[0][1][:140]}
+    return {"name": name, "status": "failed", "why": f"seeded change not detected by {expect} "
+                                                      f"(new violations: {sorted(r for r, _ in new_keys)})"}
 
 
 def variants_for(prop: str) -> List[Tuple]:
